@@ -60,7 +60,8 @@ fn child() {
     let code = grammar
         .generate_code(&settings)
         .unwrap_or_else(|e| panic!("corpus grammar {vname}: codegen failed: {e:?}"));
-    println!("{}", exported_rules(&grammar).join(","));
+    // whatever the generator itself printed on stdout so far is in front of the marker and is ignored by the parent
+    println!("\nSIMCORPUS-EXPORTED\t{}", exported_rules(&grammar).join(","));
     print!("{code}");
 }
 
@@ -79,7 +80,8 @@ fn generate_in_child(vname: &str, vtext: &str, ctx: bool) -> (Vec<String>, Strin
         panic!("corpus grammar {vname}: the generator failed in a process of its own");
     }
     let s = String::from_utf8(out.stdout).unwrap();
-    let (first, code) = s.split_once('\n').unwrap();
+    let at = s.rfind("\nSIMCORPUS-EXPORTED\t").unwrap_or_else(|| panic!("corpus grammar {vname}: no answer from the child"));
+    let (first, code) = s[at + "\nSIMCORPUS-EXPORTED\t".len()..].split_once('\n').unwrap();
     (first.split(',').filter(|x| !x.is_empty()).map(|x| x.to_string()).collect(), code.to_string())
 }
 
